@@ -90,6 +90,21 @@ def gen_cases(rng, tier):
                 if k % 3 == 0:
                     add("uidf\t%s\t%d\t%d\t%s\t%d" % (w, r, e, hexs(M), ERRNOS[0]), kind="malformed", uid=r)
             add("csv\t%s" % hexs(M), kind="csv", uid=r)
+    # entries spread over the whole uid range, in every order (a sort / search by subtraction, a truncating comparison ...)
+    import itertools
+    pool = [0, 1000, 2 ** 31 - 1, 2 ** 31, 2 ** 31 + 1000, 2 ** 32 - 2]
+    for r in (0, 1000, 2 ** 31, 2 ** 32 - 2):
+        e = other_euid(rng, r)
+        for perm in itertools.permutations(pool, 3):
+            L = b",".join(b"%d" % v for v in perm)
+            for w in ("only", "exclude"):
+                add("uidf\t%s\t%d\t%d\t%s" % (w, r, e, hexs(L)), kind="wf", uid=r, n=3, include=(r in perm))
+        for k in range(12 if tier == "quick" else 200):
+            perm = list(pool) + [rng.randrange(0, 2 ** 32) for _ in range(rng.choice([0, 2, 9]))]
+            rng.shuffle(perm)
+            L = b",".join(b"%d" % v for v in perm)
+            for w in ("only", "exclude"):
+                add("uidf\t%s\t%d\t%d\t%s" % (w, r, e, hexs(L)), kind="wf", uid=r, n=len(perm), include=(r in perm))
     # one and the same list under every real uid in turn (a decision must not survive from the previous call)
     for k in range(6 if tier == "quick" else 60):
         members = rng.sample(UIDS, rng.choice([1, 2, 4]))
